@@ -87,6 +87,16 @@ def one_case(rng, tmp):
         except BaseException as e:  # noqa
             impl['merge'] = exc_name(e)
             db = None
+        if db is None:
+            # descriptions that do not clash must merge (independent validity check)
+            seen, clash = set(), False
+            for i, d in enumerate(pristine):
+                names = list(d['datasets']) + list(d.get('alias', {}))
+                if any(nm in seen for nm in names) or (i > 0 and any(k not in ('datasets', 'alias') for k in d)):
+                    clash = True
+                seen |= set(names)
+            if not clash:
+                fails.append(('valid_descriptions_rejected', {'descriptions': pristine, 'error': impl['merge']}))
         if db is not None:
             impl['names'] = list(db.dataset_names)
             impl['answers'] = [answer(db, r) for r in reqs]
